@@ -52,20 +52,26 @@ var maxIntRe = regexp.MustCompile(`^-?92233720368547758(0[0-9])$`)
 // 9223372036854775800..807 come back as a big number from the in-memory
 // parsers' inline digit loop.
 func maxIntPred(v *mon.Violation) bool {
-	m, ok := v.Case.(map[string]any)
-	if !ok {
+	if v.Kind != "value" || !strings.HasSuffix(v.Class, "/int-as-big") {
 		return false
 	}
-	lit, _ := m["literal"].(string)
+	// the literal the observation is about (a number on its own or inside a document)
+	lit := ""
+	if m, ok := v.Case.(map[string]any); ok {
+		lit, _ = m["literal"].(string)
+	}
+	if lit == "" {
+		if m := maxIntObs.FindStringSubmatch(v.Observed); m != nil {
+			lit = m[1]
+		}
+	}
 	if !maxIntRe.MatchString(lit) || strings.HasPrefix(lit, "-") {
 		return false
 	}
-	last := lit[len(lit)-1]
-	if last > '7' {
-		return false
-	}
-	return v.Kind == "value" && v.Class == "number/int-as-big"
+	return lit[len(lit)-1] <= '7'
 }
+
+var maxIntObs = regexp.MustCompile(`plain integer literal (-?[0-9]+) that fits int64 came back as big`)
 
 var specialInts = []string{"0", "1", "9", "10", "12", "123456789", "922337203685477580", "922337203685477581", "9223372036854775806", "9223372036854775807", "9223372036854775808", "9223372036854775809", "9223372036854775800", "9223372036854775799",
 	"18446744073709551615", "18446744073709551616", "20000000000000000000", "92233720368547758070", "99999999999999999999", "100000000000000000000", "123456789012345678901234567890", "999999999999999999", "1000000000000000000", "9999999999999999999", "10000000000000000000"}
